@@ -285,7 +285,7 @@ func conc(c *Ctx) {
 	}
 	world.Quiescence(s, n, world.QuiescenceOpts{})
 	if fds := world.OpenFDs(n.Dir); len(fds) > 0 {
-		s.Violate("C14.fds", fds[0], "open descriptors into the cache directory with no request in flight: %v", fds)
+		s.Violate("C14.fds", "fd", "open descriptors into the cache directory with no request in flight: %v", fds)
 	}
 	c.Res.StateHash = StateHash(world.Observe(n))
 	checkRegisters(c, hist, !tight)
